@@ -346,3 +346,5 @@ H("C14", "html/document", "VxH_C14_border_image", mode="real", nonfinite_confirm
 H("C18", "svg", "VxH_C18_arc_center", mode="real", reach=["centre"], bounds="arc from the origin to a symbolic end point in [-100,100]^2, rx symbolic in [1,100], ry/rx in {1, 2, 1/2}, both flags, x-axis-rotation 0; exact reals with sqrt axiomatised", quick={"solverms": 60000})
 H("C02", "html/layout", "VxH_C02_nested_padding", mode="real", reach=["laid-out", "split"], bounds="a block, then a section with three child blocks and a symbolic bottom padding in [0,40] and optional bottom border in [1,20], then a block; heights in [10,60] on 100px pages", quick={"maxsteps": 100000000, "time": "600s", "shards": 8})
 H("C15", "text", "VxH_C15_lang_quotes", reach=["looked-up"], bounds="GetLangQuotes on the real entries of 4 related keys ('', fr, fr_CH, de) for 5 language tags; every visiting order of that sub-table in two independent runs (the full table of ~120 entries is out of reach of permutation)", quick={"shards": 4})
+H("C19", "css/counters", "VxH_C19_explicit_range_zero", reach=["rendered"], bounds="symbolic / alphabetic styles of 2 symbols with the explicit range -10..10; value -6..6")
+H("C07", "html/boxes", "VxH_C07_span_attributes", reach=["read"], bounds="colspan / rowspan / span attribute text of 0..5 (thorough 8) symbolic printable ASCII bytes", quick={"shards": 6})
